@@ -373,9 +373,10 @@ pub fn c03_core(a: &Analysis, v: &mut Verdict, prop: &str, skip_inverted: bool) 
 /// P_CYCLE_BEGIN and P_CYCLE_END) at some point between the earliest submit of the trace and the
 /// end of the root's finish op. Used only to name the violation class.
 fn cut_sig(a: &Analysis, c: usize) -> &'static str {
-    match a.inversion(c) {
-        (_, true) => "ring-reordered",
-        (true, false) => "inverted-cut",
+    match a.inversion3(c) {
+        (_, true, _) => "ring-reordered",
+        (true, false, true) => "inverted-cut-unvisited-ring",
+        (true, false, false) => "inverted-cut",
         _ => "consistent-cut",
     }
 }
